@@ -6,12 +6,16 @@ Translated to Lean (harness/pylean_res.py on top of pylean):
   recursive helper with the accumulators `sequence_first_valid_type`, `cleaned_seq`);
   BoundedAttributes.__setitem__ (frozen test, cap-0 branch, cleaning, key-present branch, evict branch with the
   `last=` flag of popitem, the counter updates — in the order the source has them), __delitem__, merge_in;
-  the schema rule of Resource.merge; the service-name fallback text of Resource.create.
+  the schema rule of Resource.merge; the service-name fallback text of Resource.create;
+  DeepResourceDetector.detect STATEMENT BY STATEMENT (`detectEnv` + the item loop `detectLoop`: the truthiness test of
+  DEEP_RESOURCE_ATTRIBUTES, the split at ",", the try/except ValueError around the `key, value = item.split("=",
+  maxsplit=1)` unpacking with its `continue`, strip / unquote of the value, the strip of the key, the dict store, the
+  DEEP_SERVICE_NAME override afterwards, the dict handed to Resource(...)) over the vocabulary of Model/ResEnv.lean.
 Extracted as constants: the default resource (keys and values, version read from deep/version.py), the names of the
   resource environment variables, SERVICE_NAME / PROCESS_EXECUTABLE_NAME, the order of the sources in Resource.create.
 Checked shapes (Untranslatable when gone): BoundedAttributes.__init__ (validation, counters, initial attributes set
   before `_immutable`), BoundedAttributes.copy, Resource.__init__, the copy/update/construct frame of Resource.merge,
-  the frame of Resource.create, DeepResourceDetector.detect, the resource loop of Deep.start, convert_resource.
+  the frame of Resource.create, the resource loop of Deep.start, convert_resource.
 """
 import ast
 
@@ -45,24 +49,6 @@ self._attributes = BoundedAttributes(attributes=attributes)
 if schema_url is None:
     schema_url = ""
 self._schema_url = schema_url
-'''
-
-DETECT_TEMPLATE = '''
-env_resources_items = os.environ.get(DEEP_RESOURCE_ATTRIBUTES)
-env_resource_map = {}
-if env_resources_items:
-    for item in env_resources_items.split(","):
-        try:
-            key, value = item.split("=", maxsplit=1)
-        except ValueError as exc:
-            logging.warning("Invalid key value resource attribute pair %s: %s", item, exc)
-            continue
-        value_url_decoded = parse.unquote(value.strip())
-        env_resource_map[key.strip()] = value_url_decoded
-service_name = os.environ.get(DEEP_SERVICE_NAME)
-if service_name:
-    env_resource_map[SERVICE_NAME] = service_name
-return Resource(env_resource_map)
 '''
 
 START_LOOP_TEMPLATE = '''
@@ -153,14 +139,97 @@ def merge_in_loop(fdef, what):
             '    | .ok st => mergeIn st rest\n')
 
 
+# ------------------------------------------------------------------------------------------ DeepResourceDetector.detect
+ENV_READS = {'os.environ.get(DEEP_RESOURCE_ATTRIBUTES)': 'resAttrs', 'os.environ.get(DEEP_SERVICE_NAME)': 'svcName',
+             'os.getenv(DEEP_RESOURCE_ATTRIBUTES)': 'resAttrs', 'os.getenv(DEEP_SERVICE_NAME)': 'svcName'}
+
+
+class DetectTr(XTranslator):
+    def e_Dict(self, n):
+        if n.keys:
+            raise Untranslatable('dict display: ' + ast.unparse(n))
+        return '[]'
+
+
+def detect_hook(tr, s, rest, k):
+    # X = os.environ.get(NAME): X is an optional text from here on
+    if isinstance(s, ast.Assign) and len(s.targets) == 1 and isinstance(s.targets[0], ast.Name) \
+            and ast.unparse(s.value) in ENV_READS:
+        x = s.targets[0].id
+        tr.opt_text.add(x)
+        tr.truthy[x] = f'(envTruthy {x})'
+        tr.iters[f"{x}.split(',')"] = (f'(splitItems (envText {x}))', 'String')
+        return f'let {x} := {ENV_READS[ast.unparse(s.value)]}\n{tr.block(rest, k)}'
+    # try: a, b = item.split("=", maxsplit=1)   except ValueError [as e]: <handler>
+    if isinstance(s, ast.Try):
+        ok = (len(s.body) == 1 and isinstance(s.body[0], ast.Assign) and len(s.body[0].targets) == 1
+              and isinstance(s.body[0].targets[0], ast.Tuple) and len(s.body[0].targets[0].elts) == 2
+              and all(isinstance(e, ast.Name) for e in s.body[0].targets[0].elts)
+              and len(s.handlers) == 1 and s.handlers[0].type is not None
+              and ast.unparse(s.handlers[0].type) == 'ValueError' and not s.orelse and not s.finalbody)
+        if ok:
+            c = s.body[0].value
+            ok = (isinstance(c, ast.Call) and isinstance(c.func, ast.Attribute) and c.func.attr == 'split'
+                  and isinstance(c.func.value, ast.Name) and c.func.value.id not in tr.opt_text
+                  and ((len(c.args) == 1 and len(c.keywords) == 1 and c.keywords[0].arg == 'maxsplit'
+                        and ast.unparse(c.keywords[0].value) == '1')
+                       or (len(c.args) == 2 and not c.keywords and ast.unparse(c.args[1]) == '1'))
+                  and isinstance(c.args[0], ast.Constant) and c.args[0].value == '=')
+        if not ok:
+            raise Untranslatable('try statement of detect: ' + ast.unparse(s)[:80])
+        a, b = (e.id for e in s.body[0].targets[0].elts)
+        h = tr.block(list(s.handlers[0].body), tr.block(rest, k) if (rest or k is not None) else None)
+        after = tr.block(rest, k)
+        return (f'match splitKV {c.func.value.id} with\n| none =>\n{_ind(h)}\n| some ({a}, {b}) =>\n{_ind(after)}')
+    # D[k] = v on the dict being built
+    if isinstance(s, ast.Assign) and len(s.targets) == 1 and isinstance(s.targets[0], ast.Subscript) \
+            and isinstance(s.targets[0].value, ast.Name) and tr.types.get(s.targets[0].value.id) == 'OD':
+        d = s.targets[0].value.id
+        v = s.value
+        vt = f'(envText {v.id})' if isinstance(v, ast.Name) and v.id in tr.opt_text else tr.expr(v)
+        return (f'let {d} := OD.set {d} (Key.str {tr.expr(s.targets[0].slice)}) (strVal {vt})\n'
+                + tr.block(rest, k))
+    return None
+
+
+def detect_function(fdef):
+    if [a.arg for a in fdef.args.args] != ['self']:
+        raise Untranslatable('detect signature')
+    body = strip_doc(fdef.body)
+    # the dict the function builds: the local initialised with `{}`
+    dicts = [s.targets[0].id for s in body if isinstance(s, ast.Assign) and len(s.targets) == 1
+             and isinstance(s.targets[0], ast.Name) and isinstance(s.value, ast.Dict) and not s.value.keys]
+    if len(dicts) != 1:
+        raise Untranslatable('detect no longer builds one dict')
+    tr = DetectTr(types={dicts[0]: 'OD'}, names={'SERVICE_NAME': 'serviceNameKey'},
+                  calls={'parse.unquote': lambda a: f'(unquoteS {a[0]})',
+                         'unquote': lambda a: f'(unquoteS {a[0]})',
+                         'Resource': lambda a: _detect_result(a)},
+                  stmt_hooks=[detect_hook], params='(resAttrs svcName : Option String)', loop_name='detectLoop',
+                  result_type='OD')
+    tr.param_names = ['resAttrs', 'svcName']
+    tr.opt_text = set()
+    text = tr.function(fdef, 'def detectEnv (resAttrs svcName : Option String) : OD')
+    doc = ('/-- `DeepResourceDetector.detect()`, statement by statement: the dict handed to `Resource(...)`.\n'
+           '    `resAttrs` / `svcName` = `os.environ.get` of DEEP_RESOURCE_ATTRIBUTES / DEEP_SERVICE_NAME; an item without\n'
+           '    "=" is the caught ValueError (`continue`). -/\n')
+    return list(tr.aux) + [doc + text]
+
+
+def _detect_result(a):
+    if len(a) != 1:
+        raise Untranslatable('detect no longer returns Resource(<dict>)')
+    return a[0]
+
+
 def generate():
     attr = load(ATTR)
     res = load(RES)
     consts = module_constants(res)
     vconsts = module_constants(load(VERSION))
     parts = [header('bounded attributes and resource identity', [ATTR, RES, VERSION, DEEP, GRPC]).rstrip('\n'),
-             'import DeepModel.Model.AttrBase\n', 'set_option linter.unusedVariables false\n',
-             'namespace Extracted.Attributes\nopen Attr\n']
+             'import DeepModel.Model.AttrBase\nimport DeepModel.Model.ResEnv\n', 'set_option linter.unusedVariables false\n',
+             'namespace Extracted.Attributes\nopen Attr Resource\n']
 
     # _VALID_ATTR_VALUE_TYPES
     valid = None
@@ -318,9 +387,10 @@ def generate():
                  lean_list(lean_str(consts[c]) for c in ('TELEMETRY_SDK_LANGUAGE', 'TELEMETRY_SDK_NAME',
                                                          'TELEMETRY_SDK_VERSION')) + '\n')
 
-    # detector, Deep.start loop, convert_resource: shapes
-    if not same_shape(find_def(res, 'DeepResourceDetector.detect'), DETECT_TEMPLATE):
-        raise Untranslatable('DeepResourceDetector.detect changed shape')
+    # detector: translated
+    parts.extend(detect_function(find_def(res, 'DeepResourceDetector.detect')))
+
+    # Deep.start loop, convert_resource: shapes
     start = find_def(load(DEEP), 'Deep.start')
     sb = strip_doc(start.body)
     want = [ast.dump(x) for x in ast.parse(START_LOOP_TEMPLATE.strip()).body]
